@@ -2488,7 +2488,9 @@ def get_initial_conditions(model: Model, dosing: bool = False) -> Mapping[Expr, 
                     time = comp.lag_time
                 else:
                     time = 0
-                d[Expr.function(comp.amount.name, time)] = comp.doses[0].amount
+                d[Expr.function(comp.amount.name, time)] = (
+                    comp.doses[0].amount * comp.bioavailability
+                )
 
     return d
 
